@@ -188,7 +188,8 @@ func VerifC01ShortForms() {
 	if attr == "ports" {
 		alpha = ":-/18"
 	}
-	s := vrtString("s", vrtParam("L", 4), alpha)
+	// optional concrete non-ASCII first character (symbolic bytes are 7-bit)
+	s := []string{"", "\u20ac"}[vrtChoice("atom", 2)] + vrtString("s", vrtParam("L", 4), alpha)
 	var v any = []any{s}
 	if attr == "ulimits" {
 		v = map[string]any{"nofile": s}
